@@ -162,6 +162,11 @@ class DocSim(core.Engine):
     def check_reparse(self, sess: Session, step: int, eff: Optional[docops.Effect]) -> list[Violation]:
         V: list[Violation] = []
         root = sess.root
+        if any(isinstance(t, BlockComment) and not t.claimed for t in root.token_store):
+            # an unowned comment is invisible to the model; text inserted next to it may merge with it.
+            # Like C03 the clause speaks about documents whose comments are all attributed.
+            sess.stats['reparse_skipped_unowned_comment'] += 1
+            return V
         text = print_model(root)
         props = ['C06'] + (['C09'] if eff is not None and eff.cls == 'V' else [])
         try:
